@@ -164,6 +164,9 @@ fn run(ctx: &Ctx) {
     let n2 = ctx.tier.pick(4, 5);
     let count2 = gen::exh_count(gen::SIGMA2.len() as u64, n2);
     ctx.run_indexed("exh-bytes-alphabet2-x-all-configs", count2 * 128 * 2, |i| Some(Case { input: B(gen::exh_bytes(gen::SIGMA2, i / 256)), cfg: (i % 128) as u8, source: if (i / 128) % 2 == 0 { 0 } else { 2 } }), check);
+    let n3 = ctx.tier.pick(4, 5);
+    let count3 = gen::exh_count(gen::SIGMA3.len() as u64, n3);
+    ctx.run_indexed("exh-bytes-alphabet3-x-all-configs", count3 * 128 * 2, |i| Some(Case { input: B(gen::exh_bytes(gen::SIGMA3, i / 256)), cfg: (i % 128) as u8, source: if (i / 128) % 2 == 0 { 0 } else { 2 } }), check);
     // buffered sources: skip_whitespace / trimming are implemented per source
     let nb = ctx.tier.pick(4, 5);
     let countb = gen::exh_count(13, nb);
